@@ -6,6 +6,8 @@
 (* ReadFrame action consumes exactly one frame at the cursor.              *)
 (* Scope: ndim {2,3} x style {x,xs,xu} x {orthogonal, triclinic with every *)
 (* sign pattern of the tilts} x 3 origins x N in 1..3 with ALL line orders *)
+(* (+ two ends-fixed orders for N = 4), timesteps increasing / repeated /   *)
+(* decreasing                                                              *)
 (* x 0..2 trailing columns x 1..3 frames; coordinates from a per-style     *)
 (* catalogue (inside, on the faces, < 1 box outside for x, several boxes   *)
 (* away for xu).                                                           *)
@@ -17,7 +19,13 @@ CONSTANTS Tier, Gen, SHARD, NSHARDS, SAMPLE, SALT
 VARIABLES st
 vars == <<st>>
 
-Perms == << <<1>>, <<1, 2>>, <<2, 1>>, <<1, 2, 3>>, <<1, 3, 2>>, <<2, 1, 3>>, <<2, 3, 1>>, <<3, 1, 2>>, <<3, 2, 1>> >>
+\* all line orders for N <= 3, and for N = 4 the two orders that keep the first and last line in place
+\* (resp. exchanged) while the interior is permuted ("looks sorted at both ends")
+Perms == << <<1>>, <<1, 2>>, <<2, 1>>, <<1, 2, 3>>, <<1, 3, 2>>, <<2, 1, 3>>, <<2, 3, 1>>, <<3, 1, 2>>, <<3, 2, 1>>,
+            <<1, 3, 2, 4>>, <<2, 4, 1, 3>> >>
+NPerms == 11
+\* timestep of frame f: increasing, or repeated by consecutive frames (1,1,2), or decreasing
+TsStep(s, f) == IF s % 4 = 1 THEN (f + 1) \div 2 ELSE IF s % 4 = 3 THEN 4 - f ELSE f
 Tilts2 == << <<0, 0, 0>>, <<120, 0, 0>>, <<0 - 120, 0, 0>> >>
 Tilts3 == << <<0, 0, 0>>,
              <<80, 100, 40>>, <<80, 100, 0 - 140>>, <<80, 0 - 60, 40>>, <<80, 0 - 60, 0 - 140>>,
@@ -37,8 +45,8 @@ Coord(style, tri, lo, len, h) ==
   ELSE << lo + len \div 4, lo - len \div 8, lo + len + len \div 8, lo, lo + len, lo + (3 * len) \div 4,
           lo - len + 1, lo + 2 * len - 1 >>[1 + (h % 8)]
 
-NConf2 == 3 * 3 * 3 * 9 * 3 * 3
-NConf3 == 3 * 9 * 3 * 9 * 3 * 3
+NConf2 == 3 * 3 * 3 * NPerms * 3 * 3
+NConf3 == 3 * 9 * 3 * NPerms * 3 * 3
 NConf  == NConf2 + NConf3
 Frame(s, ndim, si, ti, oi, pi, ex, f) ==
   LET tilt == IF ndim = 2 THEN Tilts2[ti] ELSE Tilts3[ti]
@@ -48,7 +56,7 @@ Frame(s, ndim, si, ti, oi, pi, ex, f) ==
       len  == IF ndim = 2 THEN <<800 + 4 * f, 640 + 8 * f, 100>> ELSE <<800 + 4 * f, 640 + 8 * f, 480 + 12 * f>>
       ord  == Perms[pi]
       n    == Len(ord)
-  IN  [ ts |-> 1000 * f + ((7 * s) % 1000), ndim |-> ndim, style |-> Styles[si], tri |-> tri, lo |-> lo, L |-> len, tilt |-> tilt,
+  IN  [ ts |-> 1000 * TsStep(s, f) + ((7 * s) % 1000), ndim |-> ndim, style |-> Styles[si], tri |-> tri, lo |-> lo, L |-> len, tilt |-> tilt,
         atoms |-> [id \in 1..n |-> [type |-> 1 + (Hash(s, f, id, 9) % 2),
                                     co |-> [k \in 1..3 |-> Coord(Styles[si], tri, lo[k], len[k], Hash(s, f, id, k))]]],
         order |-> (IF (f % 2) = 0 THEN [m \in 1..n |-> ord[n + 1 - m]] ELSE ord), extra |-> ex ]
@@ -59,9 +67,9 @@ Frames(s) ==
       si  == 1 + (r % 3)
       ti  == 1 + ((r \div 3) % nt)
       oi  == 1 + ((r \div (3 * nt)) % 3)
-      pi  == 1 + ((r \div (9 * nt)) % 9)
-      ex  == (r \div (81 * nt)) % 3
-      nf  == 1 + ((r \div (243 * nt)) % 3)
+      pi  == 1 + ((r \div (9 * nt)) % NPerms)
+      ex  == (r \div (9 * NPerms * nt)) % 3
+      nf  == 1 + ((r \div (27 * NPerms * nt)) % 3)
   IN  [f \in 1..nf |-> Frame(s, IF two THEN 2 ELSE 3, si, ti, oi, pi, ex, f)]
 
 Init ==
